@@ -219,8 +219,13 @@ class SerialiseFamily(ScenarioFamily):
             scn["net"]["endpoints"]["px.test:3128"] = {"kind": "http_proxy"}
         if h2:
             w1 = ep["h2"]["settings"].get("initial_window_size", 65535)
+            re_ = gen.mk_rng(seed, "c03early")
             for c in callers:
                 for op in c["ops"]:
+                    if op.get("body") and mode in ("plain", "concurrent") and re_.random() < 0.3:
+                        # the server sends its response head before it has received the
+                        # request body: the body must still arrive in full
+                        op["resp"]["h2_early_head"] = True
                     b = op.get("body")
                     if b and w1 <= 10 and b["len"] > 300:
                         op["body"] = {"len": 300} if b.get("chunks") is None else \
